@@ -66,6 +66,50 @@ def convArgInt (k : IntKind) : JArg → Int
   | .undef => 0
   | .null => 0
 
+/-- toReflectValue into a `bool` parameter: undefined / null → zero value; otherwise ToBoolean -/
+def convArgBool : JArg → Bool
+  | .num (.int i) => i ≠ 0
+  | .num (.flt .nan) => false
+  | .num (.flt .negZero) => false
+  | .num (.flt _) => true          -- non-zero finite (an integral 0 is a valueInt) or ±Infinity
+  | .bool b => b
+  | .undef => false
+  | .null => false
+
+/-- toReflectValue into a `float64` parameter: undefined / null → zero value; otherwise ToFloat -/
+def convArgF64 : JArg → Flt
+  | .num v => exportToF64 v
+  | .bool b => .intval (if b then 1 else 0)
+  | .undef => .intval 0
+  | .null => .intval 0
+
+/-- parameter kinds the model converts into -/
+inductive PKind where
+  | int (k : IntKind) | bool | f64
+deriving DecidableEq, Repr
+
+inductive GoArg where
+  | int (v : Int) | bool (b : Bool) | f64 (f : Flt)
+deriving DecidableEq, Repr
+
+def convArg : PKind → JArg → GoArg
+  | .int k, a => .int (convArgInt k a)
+  | .bool, a => .bool (convArgBool a)
+  | .f64, a => .f64 (convArgF64 a)
+
+def zeroArg : PKind → GoArg
+  | .int _ => .int 0
+  | .bool => .bool false
+  | .f64 => .f64 (.intval 0)
+
+/-- what a Go func with parameters of mixed kinds receives -/
+def gatewayCallP (kinds : List PKind) (variadic : Bool) (args : List JArg) : List GoArg :=
+  let g := gatewayIn kinds.length variadic args.length
+  (List.range g.len).map (fun i => match g.slot i with
+    | .arg j p _ => convArg (kinds.getD p (.int .int)) (args.getD j .undef)
+    | .zero p => zeroArg (kinds.getD p (.int .int))
+    | .unset => .int 0)
+
 /-- what the Go func receives: position i of `in`, converted for its parameter kind -/
 def gatewayCall (kinds : List IntKind) (variadic : Bool) (args : List JArg) : List Int :=
   let g := gatewayIn kinds.length variadic args.length
